@@ -152,6 +152,8 @@ class FaultPos:
             if extra is None:
                 ctx.count("fault_not_applicable")
                 continue
+            if w.repo is not None:
+                w.repo.baseline(w.dir)   # the faulty state is what is committed: the tree is clean, only the rewrite can fail
             argv = list(args)
             if fault["kind"] == "reject":
                 target = tc.derive_target(fault["sv"], tree, state, text)
